@@ -170,8 +170,34 @@ func (tc *tcore) unseal(keys [][]byte) error {
 	return nil
 }
 
+// quiesceRestore waits (bounded) until the expiration manager has finished restoring leases. Sealing or shutting
+// down while the restore is still distributing leases can hang for good in this tree: ExpirationManager.Stop closes
+// quitCh, the restore workers leave, the distributor goroutine stays blocked in its unconditional `broker <- lease`
+// send, restore() never returns from wg.Wait(), and Stop() spins in `for m.inRestoreMode()` while the caller holds
+// the state lock (observed in the thorough tier of C01; a liveness defect outside the listed properties, see
+// DESIGN.md 10.6). The harness therefore never seals during a restore.
+func (tc *tcore) quiesceRestore() {
+	deadline := time.Now().Add(20 * time.Second)
+	for time.Now().Before(deadline) {
+		m := tc.c.expiration
+		if m == nil || !m.inRestoreMode() {
+			return
+		}
+		time.Sleep(2 * time.Millisecond)
+	}
+}
+
+// seal seals the core (after any lease restore has finished).
+func (tc *tcore) seal() error {
+	tc.quiesceRestore()
+	return tc.c.sealInternal()
+}
+
 func (tc *tcore) shutdown() {
 	tc.close.Do(func() {
+		if p := verifx.Try(tc.quiesceRestore); p != nil {
+			tc.t.Logf("harness: quiesceRestore: %v", p)
+		}
 		done := make(chan struct{})
 		go func() {
 			defer close(done)
